@@ -26,6 +26,7 @@ type consts struct {
 	limit  uint32
 	target uint64
 	power  bool
+	pre    []string
 }
 
 func seqStrs(v tla.Value) []string {
